@@ -572,4 +572,282 @@ theorem syncStates_events (g : Graph) (s : State) (n v : Nat) (rv : Option (List
     · intro e he; rw [List.mem_singleton.mp he]; exact ⟨_, _, _, rfl⟩
     · intro e he; rw [List.mem_singleton.mp he]; exact ⟨_, _, _, rfl⟩
 
+/-! ## the functions of the loop -/
+
+/-- static side conditions: well-formed edges, a flat root, and the hidden set of the graph the piece runs on lies
+below the initial one -/
+structure Ctx (g : Graph) (H0 hid0 : List Nat) : Prop where
+  wf : GraphWF g
+  rootFlat : (g.node g.root).flat = true
+  sub0 : ∀ h ∈ hid0, h ∈ H0
+
+theorem Ctx.root_ok {g : Graph} {H0 hid0 : List Nat} (c : Ctx g H0 hid0) (w : Nat) :
+    g.root < g.nodes.length ∧ relevant g w g.root = true :=
+  ⟨c.wf.root_lt, by unfold relevant; rw [c.rootFlat]; rfl⟩
+
+theorem pickChild_rel (g : Graph) (s : State) (n w c : Nat) (s' : State) (h : pickChild g s n w = some (c, s')) :
+    c ∈ (g.node n).cleanup.map (·.1) ∧ relevant g w c = true ∧
+      s' = s.setCr (g.node c).cls (fun r => { r with pickedBySetup := regAdd r.pickedBySetup ((g.node n).cls, w) }) := by
+  unfold pickChild at h
+  dsimp only at h
+  split at h
+  · simp at h
+  · rename_i c' rest heq
+    simp only [Option.some.injEq, Prod.mk.injEq] at h
+    have : c' ∈ stableSort (fun a b => keyLe (pickKey g s false a) (pickKey g s false b))
+        (((g.node n).cleanup.map (·.1)).filter (fun c =>
+          relevant g w c && !(regWorkers (s.cr (g.node n).cls).droppedCleanup (some (g.node c).cls)).contains w)) := by
+      rw [heq]; exact List.mem_cons_self
+    have := List.mem_filter.mp (mem_stableSort _ _ _ this)
+    rw [Bool.and_eq_true] at this
+    rw [← h.1]
+    exact ⟨this.1, this.2.1, h.2.symm⟩
+
+theorem pickParent_rel (g : Graph) (s : State) (n w c : Nat) (s' : State) (h : pickParent g s n w = some (c, s')) :
+    c ∈ (g.node n).setup.map (·.1) ∧ relevant g w c = true ∧
+      s' = s.setCr (g.node c).cls (fun r => { r with pickedByCleanup := regAdd r.pickedByCleanup ((g.node n).cls, w) }) := by
+  unfold pickParent at h
+  dsimp only at h
+  split at h
+  · simp at h
+  · rename_i c' rest heq
+    simp only [Option.some.injEq, Prod.mk.injEq] at h
+    have : c' ∈ stableSort (fun a b => keyLe (pickKey g s true a) (pickKey g s true b))
+        (((g.node n).setup.map (·.1)).filter (fun p =>
+          relevant g w p && !(regWorkers (s.cr (g.node n).cls).droppedSetup (some (g.node p).cls)).contains w)) := by
+      rw [heq]; exact List.mem_cons_self
+    have := List.mem_filter.mp (mem_stableSort _ _ _ this)
+    rw [Bool.and_eq_true] at this
+    rw [← h.1]
+    exact ⟨this.1, this.2.1, h.2.symm⟩
+
+theorem upd_pickChild (g : Graph) (H0 : List Nat) (w : Nat) (gv : Graph) (hsn : SameNodes gv g) (hwf : GraphWF gv)
+    (s : State) (n c : Nat) (s' : State) (h : pickChild gv s n w = some (c, s')) : Upd g H0 w s (pushPath s' w c) := by
+  obtain ⟨hc, hr, hs⟩ := pickChild_rel gv s n w c s' h
+  obtain ⟨p, hp, hpc⟩ := List.mem_map.mp hc
+  have hlt : c < g.nodes.length := by rw [← hpc, ← hsn.len]; exact hwf.cleanup_lt n p hp
+  rw [hs]
+  have h1 := upd_setCr g H0 w s (gv.node c).cls
+    (fun r => { r with pickedBySetup := regAdd r.pickedBySetup ((gv.node n).cls, w) }) (fun _ => rfl) (fun _ => rfl)
+  exact h1.trans (upd_pushPath g H0 w _ c hlt (by rw [← relevant_sameNodes hsn]; exact hr))
+
+theorem upd_pickParent (g : Graph) (H0 : List Nat) (w : Nat) (gv : Graph) (hsn : SameNodes gv g) (hwf : GraphWF gv)
+    (s : State) (n c : Nat) (s' : State) (h : pickParent gv s n w = some (c, s')) : Upd g H0 w s (pushPath s' w c) := by
+  obtain ⟨hc, hr, hs⟩ := pickParent_rel gv s n w c s' h
+  obtain ⟨p, hp, hpc⟩ := List.mem_map.mp hc
+  have hlt : c < g.nodes.length := by rw [← hpc, ← hsn.len]; exact hwf.setup_lt n p hp
+  rw [hs]
+  have h1 := upd_setCr g H0 w s (gv.node c).cls
+    (fun r => { r with pickedByCleanup := regAdd r.pickedByCleanup ((gv.node n).cls, w) }) (fun _ => rfl) (fun _ => rfl)
+  exact h1.trans (upd_pushPath g H0 w _ c hlt (by rw [← relevant_sameNodes hsn]; exact hr))
+
+/-- `reverse_node`: an `unset` request is preceded by a positive clean decision in the state with the `started` mark set -/
+theorem reverseNode_ok (g : Graph) (H0 hid0 : List Nat) (w : Nat) (s : State) (n : Nat) (s' : State) (evs : List Event)
+    (h0 : ∀ h ∈ hid0, h ∈ H0) (hsub : ∀ h ∈ s.hidden, h ∈ hid0) (hn : n < g.nodes.length)
+    (hlen : s.nodes.length = g.nodes.length)
+    (h : reverseNode (visH g hid0) s n w = .ok (s', evs)) : Ok g H0 w s s' evs := by
+  unfold reverseNode at h
+  by_cases hocc : isOccupied (visH g hid0) s n w = true
+  · simp only [hocc, if_true, Except.ok.injEq, Prod.mk.injEq] at h
+    rw [← h.1, ← h.2]; exact Ok.silent (Upd.refl g H0 w s)
+  · simp only [hocc, Bool.false_eq_true, if_false, ite_self] at h
+    have hA : Upd g H0 w s (s.setNd n (fun d => { d with started := some w })) := upd_setNd g H0 w s n _ (fun _ => rfl)
+    have hst : ((s.setNd n (fun d => { d with started := some w })).nd n).started = some w := by
+      rw [nd_setNd_eq s n _ (by rw [hlen]; exact hn)]
+    cases hd : cleanDecision (visH g hid0) (s.setNd n (fun d => { d with started := some w })) n w with
+    | error e => simp [hd] at h
+    | ok clean =>
+      by_cases hc : (clean && !((visH g hid0).node n).sets.isEmpty) = true
+      · simp only [hd, hc, if_true, Except.ok.injEq, Prod.mk.injEq] at h
+        have hcl : clean = true := by rw [Bool.and_eq_true] at hc; exact hc.1
+        refine ⟨?_, fun e he => ?_⟩
+        · rw [← h.1]
+          exact hA.trans ((upd_syncStates g H0 w _ _ n w none).trans (upd_setNd g H0 w _ n _ (fun _ => rfl)))
+        · rw [← h.2] at he
+          refine ⟨fun wid reqs sc ok hev => ?_, fun wid cname uid locs k hev => ?_⟩
+          · exact ⟨hid0, s.setNd n (fun d => { d with started := some w }), n, hsub, h0, hA, hn, hst, by rw [hd, hcl], he⟩
+          · obtain ⟨act, reqs, sc, hdoor⟩ := syncStates_events _ _ n w none e he
+            rw [hdoor] at hev; cases hev
+      · simp only [hd, hc, Bool.false_eq_true, if_false, Except.ok.injEq, Prod.mk.injEq] at h
+        rw [← h.1, ← h.2]
+        exact Ok.silent (hA.trans (upd_setNd g H0 w _ n _ (fun _ => rfl)))
+
+theorem upd_dropChildren (g : Graph) (H0 : List Nat) (w : Nat) (gv : Graph) (hsn : SameNodes gv g) (next : Nat)
+    (hn : next < g.nodes.length) (hrel : relevant g w next = true)
+    (l : List (Nat × List String)) (s : State) (hfin : (g.node next).flat = false → (s.nd next).finished = some w) :
+    Upd g H0 w s (l.foldl (fun s (p, _) => dropChild gv s p next w) s) := by
+  induction l generalizing s with
+  | nil => exact Upd.refl g H0 w s
+  | cons a r ih =>
+    simp only [List.foldl_cons]
+    have h1 : Upd g H0 w s (dropChild gv s a.1 next w) := by
+      unfold dropChild
+      rw [hsn.cls next]
+      exact upd_addDropC g H0 w s _ _ ⟨next, hn, rfl, hrel, hfin⟩
+    exact h1.trans (ih _ hfin)
+
+/-- the rest of the loop body after `traverse_node`: the worker drops `next` (as a parent of `prev` on the way up, as a
+child of all its parents on the way down) only with its own `finished` mark on it -/
+theorem afterTraverse_ok (g : Graph) (H0 hid0 : List Nat) (ctx : Ctx g H0 hid0) (w : Nat) (s : State) (next prev : Nat)
+    (dir : Dir) (hsub : ∀ h ∈ s.hidden, h ∈ hid0) (hlen : s.nodes.length = g.nodes.length)
+    (hn : next < g.nodes.length) (hrel : relevant g w next = true)
+    (hfin : (g.node next).flat = false → (s.nd next).finished = some w) :
+    Ok g H0 w s (afterTraverse (visH g hid0) s w next prev dir).1 (afterTraverse (visH g hid0) s w next prev dir).2.1 := by
+  have hsn := sameNodes_visH g hid0
+  have hwfv := ctx.wf.visH hid0
+  unfold afterTraverse
+  cases hd : runDecision (visH g hid0) s next w with
+  | error e => exact Ok.silent (Upd.refl g H0 w s)
+  | ok r =>
+    obtain ⟨run, s1, evs⟩ := r
+    have h1 : Upd g H0 w s s1 := upd_runDecision g H0 w _ s next w run s1 evs hd
+    have hev : ∀ e ∈ evs, EvOk g H0 w s e := fun e he => EvOk.of_plain ((runDecision_events _ s next w run s1 evs hd).1 e he)
+    have hfin1 : (g.node next).flat = false → (s1.nd next).finished = some w := fun hf => h1.keepFin next (hfin hf)
+    have hsub1 : ∀ h ∈ s1.hidden, h ∈ hid0 := fun h hh => hsub h (h1.hidden h hh)
+    have hlen1 : s1.nodes.length = g.nodes.length := h1.nodesLen.trans hlen
+    cases dir with
+    | up =>
+      dsimp only
+      refine ⟨h1.trans (Upd.trans ?_ (upd_popPath g H0 w _)), hev⟩
+      split
+      · unfold dropParent
+        rw [hsn.cls next]
+        exact upd_addDropS g H0 w s1 _ _ ⟨next, hn, rfl, hrel, hfin1⟩
+      · exact Upd.refl g H0 w s1
+    | down =>
+      dsimp only
+      by_cases hrun : run = true
+      · simp only [hrun, if_true]
+        exact ⟨h1.trans (upd_popPath g H0 w _), hev⟩
+      · simp only [hrun, Bool.false_eq_true, if_false]
+        by_cases hc : isCleanupReady (visH g hid0) s1 next w = true
+        · simp only [hc, if_true]
+          by_cases hpp : (!((visH g hid0).node next).flat && (s1.wd w).unexplored) = true
+          · simp only [hpp, if_true]
+            refine ⟨h1.trans (upd_setWd g H0 w s1 _ ?_ (fun _ => Or.inl rfl)), hev⟩
+            intro d _ x hx
+            have hx' : x = (visH g hid0).root := by simpa using hx
+            rw [hx', hsn.root]; exact ctx.root_ok w
+          simp only [hpp, Bool.false_eq_true, if_false]
+          have h2 := upd_dropChildren g H0 w _ hsn next hn hrel ((visH g hid0).node next).setup s1 hfin1
+          cases hr : reverseNode (visH g hid0)
+              (List.foldl (fun s x => dropChild (visH g hid0) s x.1 next w) s1 ((visH g hid0).node next).setup) next w with
+          | error e => exact ⟨h1.trans h2, hev⟩
+          | ok r =>
+            obtain ⟨s2, evs2⟩ := r
+            have h3 := reverseNode_ok g H0 hid0 w _ next s2 evs2 ctx.sub0 (fun h hh => hsub1 h (h2.hidden h hh)) hn
+              (h2.nodesLen.trans hlen1) hr
+            have h4 : Ok g H0 w s s2 evs2 := Ok.of_upd (h1.trans h2) h3
+            exact (Ok.trans ⟨Upd.refl g H0 w s, hev⟩ h4).then_upd (upd_popPath g H0 w _)
+        · simp only [hc, Bool.false_eq_true, if_false]
+          cases hp : pickChild (visH g hid0) s1 next w with
+          | none => exact ⟨h1, hev⟩
+          | some r =>
+            obtain ⟨c, s2⟩ := r
+            exact ⟨h1.trans (upd_pickChild g H0 w _ hsn hwfv s1 next c s2 hp), hev⟩
+
+theorem upd_setWd_test (g : Graph) (H0 : List Nat) (w : Nat) (s : State) (f : WorkerD → WorkerD) (n : Nat)
+    (hpath : ∀ d, (f d).path = d.path) (hpc : ∀ d, ∃ ph dir uid tag wait, (f d).pc = .test n ph dir uid tag wait)
+    (hr : ReadyAt g H0 s w n) : Upd g H0 w s (s.setWd w f) := by
+  refine ⟨rfl, fun _ h => h, fun _ => Or.inl rfl, fun _ _ _ h => Or.inl h, fun _ _ _ h => Or.inl h, fun _ _ _ h => h,
+    fun v hv => wd_setWd_ne s w v f hv, ?_, ?_⟩
+  · intro hp
+    unfold PathOk
+    rcases wd_setWd_cases s w f with ⟨h, _⟩ | ⟨_, h⟩
+    · rw [h]; exact hp
+    · rw [h, hpath]; exact hp
+  · rcases wd_setWd_cases s w f with ⟨h, _⟩ | ⟨_, h⟩
+    · exact Or.inl (by rw [h])
+    · right; right
+      intro n' ph' dir' uid' tag' wait' hp
+      rw [h] at hp
+      obtain ⟨ph, dir, uid, tag, wait, hq⟩ := hpc (s.wd w)
+      rw [hq] at hp
+      cases hp
+      exact hr.mono (fun _ hh => hh) (fun _ _ _ hh => hh)
+
+theorem upd_nextTag (g : Graph) (H0 : List Nat) (w : Nat) (s : State) (t : Nat) : Upd g H0 w s { s with nextTag := t } :=
+  Upd.quiet rfl (fun _ h => h) (fun _ => rfl) (fun _ => rfl) (fun _ => rfl) (fun _ => rfl)
+
+/-- `run_test_node`, first half: the only source of `start` events -/
+theorem startTest_ok (g : Graph) (H0 : List Nat) (w : Nat) (gv : Graph) (hsn : SameNodes gv g) (s : State) (n : Nat)
+    (ph : Phase) (dir : Dir) (hr : ReadyAt g H0 s w n) :
+    Ok g H0 w s (startTest gv s n w ph dir).1 (startTest gv s n w ph dir).2.1 := by
+  have hev : ∀ (e : Event) uid locs k, e = Event.start (gv.worker w).id (clsName gv n ph) uid locs k → EvOk g H0 w s e := by
+    intro e uid locs k he
+    refine ⟨fun wid reqs sc ok hev => (by rw [he] at hev; cases hev), fun wid cname uid' locs' k' hev => ?_⟩
+    rw [he] at hev
+    cases hev
+    exact ⟨by rw [hsn.worker], n, ph, s, clsName_sameNodes hsn n ph, Upd.refl g H0 w s, hr⟩
+  unfold startTest
+  dsimp only
+  split
+  · refine ⟨?_, fun e he => hev e _ _ _ (List.mem_singleton.mp he)⟩
+    dsimp only
+    refine Upd.trans (upd_nextTag g H0 w s _) (upd_setWd_test g H0 w _ _ n ?_ ?_ ?_)
+    · exact fun _ => rfl
+    · exact fun _ => ⟨_, _, _, _, _, rfl⟩
+    · exact hr.mono (fun _ hh => hh) (fun _ _ _ hh => hh)
+  · refine ⟨?_, fun e he => hev e _ _ _ (List.mem_singleton.mp he)⟩
+    dsimp only
+    refine Upd.trans (Upd.trans (upd_nextTag g H0 w s _) (upd_setNd g H0 w _ n _ ?_)) (upd_setWd_test g H0 w _ _ n ?_ ?_ ?_)
+    · exact fun _ => rfl
+    · exact fun _ => rfl
+    · exact fun _ => ⟨_, _, _, _, _, rfl⟩
+    · exact hr.mono (fun _ hh => hh) (fun _ _ _ hh => hh)
+
+/-- `traverse_node` (entered on a free, setup-ready node) followed by the rest of the loop body -/
+theorem traverseNode_ok (g : Graph) (H0 hid0 : List Nat) (ctx : Ctx g H0 hid0) (w : Nat) (s : State) (next prev : Nat)
+    (dir : Dir) (hsub : ∀ h ∈ s.hidden, h ∈ hid0) (hlen : s.nodes.length = g.nodes.length)
+    (hn : next < g.nodes.length) (hrel : relevant g w next = true)
+    (hocc : isOccupied (visH g hid0) s next w = false) (hready : isSetupReady (visH g hid0) s next w = true) :
+    Ok g H0 w s (traverseNode (visH g hid0) s w next prev dir).1 (traverseNode (visH g hid0) s w next prev dir).2.1 := by
+  have hsn := sameNodes_visH g hid0
+  unfold traverseNode
+  simp only [hocc, Bool.false_eq_true, if_false]
+  have hA : Upd g H0 w s (pullLocations (visH g hid0) (s.setNd next (fun d => { d with started := some w })) next) :=
+    (upd_setNd g H0 w s next (fun d => { d with started := some w }) (fun _ => rfl)).trans (upd_pullLocations g H0 w _ _ next)
+  cases hd : runDecision (visH g hid0) (pullLocations (visH g hid0) (s.setNd next (fun d => { d with started := some w })) next) next w with
+  | error e => exact Ok.silent hA
+  | ok r =>
+    obtain ⟨run, s1, evs⟩ := r
+    have h1 : Upd g H0 w s s1 := hA.trans (upd_runDecision g H0 w _ _ next w run s1 evs hd)
+    have hrd := runDecision_events _ _ next w run s1 evs hd
+    have hev : Ok g H0 w s s1 evs := ⟨h1, fun e he => EvOk.of_plain (hrd.1 e he)⟩
+    have hlen1 : s1.nodes.length = g.nodes.length := h1.nodesLen.trans hlen
+    dsimp only
+    by_cases hrun : run = true
+    · subst hrun
+      simp only [if_true]
+      obtain ⟨hflat, hid⟩ := hrd.2 rfl
+      have hr1 : ReadyAt g H0 s1 w next :=
+        ⟨hn, (by rw [← idIn_sameNodes hsn]; exact hid), (by rw [← hsn.flat]; exact hflat), hid0,
+          fun h hh => hsub h (h1.hidden h hh), ctx.sub0, isSetupReady_mono _ s s1 next w h1.monoS hready⟩
+      by_cases hroot : ((visH g hid0).node next).objectRoot = true
+      · simp only [hroot, if_true]
+        generalize hF : (fun (d : WorkerD) => { d with
+            preResults := (s1.nd next).results,
+            preName := "all.internal.stateless.noop.vms." ++ " ".intercalate ((visH g hid0).node next).objs ++ ".nets." ++
+              ((visH g hid0).worker w).swarm ++ "." ++ (((visH g hid0).worker w).id.splitOn ".").getLast! }) = F
+        have h2 : Upd g H0 w s1 (s1.setWd w F) :=
+          upd_setWd g H0 w s1 _ (fun d h => by rw [← hF]; exact h) (fun d => Or.inl (by rw [← hF]))
+        have h3 := startTest_ok g H0 w _ hsn _ next .pre dir (hr1.mono h2.hidden h2.monoS)
+        rcases hst : startTest (visH g hid0) (s1.setWd w F) next w .pre dir with ⟨s2, evs2, f⟩
+        rw [hst] at h3
+        exact hev.trans (Ok.of_upd h2 h3)
+      · simp only [hroot, Bool.false_eq_true, if_false]
+        have h3 := startTest_ok g H0 w _ hsn s1 next .plain dir hr1
+        rcases hst : startTest (visH g hid0) s1 next w .plain dir with ⟨s2, evs2, f⟩
+        rw [hst] at h3
+        exact hev.trans h3
+    · simp only [hrun, Bool.false_eq_true, if_false]
+      have h2 : Upd g H0 w s1 (finishTraverse s1 next w) := upd_finishTraverse g H0 w s1 next hn hrel
+      have hf2 : ((finishTraverse s1 next w).nd next).finished = some w := by
+        unfold finishTraverse; rw [nd_setNd_eq s1 next _ (by rw [hlen1]; exact hn)]
+      have h3 := afterTraverse_ok g H0 hid0 ctx w (finishTraverse s1 next w) next prev dir
+        (fun h hh => hsub h (h1.hidden h (h2.hidden h hh))) (h2.nodesLen.trans hlen1) hn hrel (fun _ => hf2)
+      rcases hat : afterTraverse (visH g hid0) (finishTraverse s1 next w) w next prev dir with ⟨s2, evs2, f⟩
+      rw [hat] at h3
+      exact hev.trans (Ok.of_upd h2 h3)
+
 end I2N.Trav
